@@ -70,11 +70,11 @@ func (c *Ctx) c18Indicator(typeKey string, sp Spec, inputs [][]float64, a, b int
 	if err != nil {
 		panic(err)
 	}
-	base, hung := runIndicator(inst, inputs, 400*time.Millisecond)
+	base, hung := runIndicatorOnce(inst, inputs, time.Second)
 	if hung {
 		return
 	}
-	sc, hung2 := runIndicator(inst, scaleInputs(t.InNames, inputs, a, b), 400*time.Millisecond)
+	sc, hung2 := runIndicatorOnce(inst, scaleInputs(t.InNames, inputs, a, b), time.Second)
 	if hung2 {
 		return
 	}
@@ -143,7 +143,7 @@ func (c *Ctx) c18Strategy(typeKey string, sp Spec, b Bars, a, v int) {
 func runC18(c *Ctx) error {
 	c.header = fmt.Sprintf(flowHeader, "Run.ValRun")
 	c.Meta.Rule = "every indicator (with its table of homogeneity degrees per output) and every strategy type x sampled configurations x OHLCV series (all regimes) x price factors 2^a, " +
-		"volume factors 2^b (a, b in -8..10): outputs on the rescaled series must equal 2^(a*dp+b*dv) times the outputs on the original series bit-for-bit, actions must be identical. " +
+		"volume factors 2^b (a, b in -8..10 most of the time, -30..30 otherwise): outputs on the rescaled series must equal 2^(a*dp+b*dv) times the outputs on the original series bit-for-bit, actions must be identical. " +
 		"A relation between two runs of the implementation, decided by the harness; the whole-series runs of C01/C05 tie the implementation to the model."
 	if c.Replay != "" {
 		var in c18Input
@@ -171,17 +171,42 @@ func runC18(c *Ctx) error {
 				bars, _ := c.randBars(n)
 				g1, _ := c.randSeries(n)
 				g2, _ := c.randSeries(n)
-				c.c18Indicator(typeKey, sp, inputsFor(t.InNames, bars, [][]float64{g1, g2}), c.Rng.IntN(19)-8, c.Rng.IntN(19)-8)
+				c.c18Indicator(typeKey, sp, inputsFor(t.InNames, bars, [][]float64{g1, g2}), c.c18Exp(), c.c18Exp())
 			}
 		}
 	}
 	for _, typeKey := range typeKeys("strategy") {
-		for k := 0; k < cfgs; k++ {
+		reps := cfgs
+		if strings.Contains(typeKey, "decorator.") { // stateful rules on prices (stop prices, entry prices): more runs each
+			reps = 6 * cfgs
+		}
+		for k := 0; k < reps; k++ {
 			sp := c.randSpec(typeKey, 7, 0, k > 0)
+			if strings.Contains(typeKey, "decorator.") && k%2 == 1 {
+				// an inner strategy that holds a position from the first bar, and a small threshold, so that the decorator's
+				// own price rule (not the inner strategy's silence) decides what comes out
+				for i := range sp.Args {
+					if sp.Args[i].Sub != nil {
+						sp.Args[i].Sub = &Spec{Ctor: "strategy.NewBuyAndHoldStrategy"}
+					}
+					if sp.Args[i].Float != nil {
+						v := []float64{0.01, 0.02, 0.03, 0.05}[c.Rng.IntN(4)]
+						sp.Args[i].Float = &v
+					}
+				}
+			}
 			n := 40 + c.Rng.IntN(80)
 			b, _ := c.randBars(n)
-			c.c18Strategy(typeKey, sp, b, c.Rng.IntN(19)-8, c.Rng.IntN(19)-8)
+			c.c18Strategy(typeKey, sp, b, c.c18Exp(), c.c18Exp())
 		}
 	}
 	return nil
+}
+
+// c18Exp draws the exponent of a unit change: modest most of the time, large (sub-cent or mega-unit quotes) otherwise.
+func (c *Ctx) c18Exp() int {
+	if c.Rng.IntN(3) == 0 {
+		return c.Rng.IntN(61) - 30
+	}
+	return c.Rng.IntN(19) - 8
 }
